@@ -480,6 +480,60 @@ def refines(before, after, envs=None):
     return None
 
 
+# ------------------------------------------------------- the real evaluator on rewritten objects
+
+def rebuild(node):
+    """a brand-new tree with the structure `node` has NOW (as seen through left/right links),
+    built with the class constructors only (no clone()); constants keep their Python value"""
+    from mathy_core import expressions as E
+    if isinstance(node, E.ConstantExpression):
+        return E.ConstantExpression(node.value)
+    if isinstance(node, E.VariableExpression):
+        return E.VariableExpression(node.identifier)
+    if isinstance(node, E.UnaryExpression):
+        return type(node)(rebuild(node.get_child()))
+    return type(node)(rebuild(node.left), rebuild(node.right))
+
+
+def _outcome(fn):
+    try:
+        v = fn()
+    except Exception as e:  # noqa
+        return ("exc", type(e).__name__)
+    try:
+        if v != v:
+            return ("nan",)
+    except Exception:  # noqa
+        pass
+    return ("val", v)
+
+
+EVAL_PROTOS = [ENV_GRID[3], ENV_GRID[5], ENV_GRID[4]]
+
+
+def eval_stale(root, nenv=2):
+    """`evaluate()` of a tree depends only on its structure: the real evaluator on the (rewritten)
+    object graph must give the very same outcome as on a freshly constructed tree of the same
+    structure (same operations in the same order, so the comparison is exact).  A difference
+    means the object carries state that the links do not show (a stale operand, a memoised
+    value, ...), i.e. the value the implementation assigns to the tree is not the value of the
+    tree.  Returns None or a description."""
+    try:
+        fresh = rebuild(root)
+        vs = sorted({n.identifier for n in inorder(root) if hasattr(n, "identifier") and n.identifier})
+    except Exception:  # noqa
+        return None
+    for proto in EVAL_PROTOS[:nenv]:
+        env = env_for(vs, proto)
+        ctxd = {k: (int(v) if v.denominator == 1 else float(v)) for k, v in env.items()}
+        a = _outcome(lambda: root.evaluate(dict(ctxd)))
+        b = _outcome(lambda: fresh.evaluate(dict(ctxd)))
+        if a != b:
+            return {"env": {k: str(v) for k, v in ctxd.items()}, "evaluate_on_rewritten_objects": str(a),
+                    "evaluate_on_fresh_tree_of_same_structure": str(b), "text": str(fresh)}
+    return None
+
+
 # --------------------------------------------------------------------------- rules
 
 RULES = {
@@ -558,6 +612,11 @@ def snapshot(root):
 
 def parse_fresh(text):
     return ExpressionParser().parse(text)
+
+
+def shash(*parts):
+    """process-independent hash of a tuple of strings/ints (Python's hash() is salted per process)"""
+    return int(hashlib.sha1(repr(parts).encode()).hexdigest()[:12], 16)
 
 
 def stable_hash(s):
